@@ -146,6 +146,7 @@ class Interp:
         self.panics = []       # (cond, msg)
         self.bounds = []       # (cond, msg): bound obligations, must be unsat
         self.overrides = {}    # fn name -> python callable(interp, args)
+        self.split_fns = set() # functions (or "*") whose symbolic string arguments are case-split per alternative
         self.wall = None
         self.solver = z3.Solver()
         self.solver.set("timeout", 20000)
@@ -567,6 +568,25 @@ class Interp:
         self.trace_calls[fname] = self.trace_calls.get(fname, 0) + 1
         if fname in self.overrides:
             return self.overrides[fname](self, args)
+        if self.split_fns and (fname in self.split_fns or "*" in self.split_fns):
+            # case split on a symbolic string argument: run the body once per alternative, under the
+            # guard (arg == alternative), with the argument concrete; merge the results
+            for idx, a in enumerate(args):
+                da = a if not isinstance(a, Rf) else None
+                if isinstance(da, S) and not da.conc():
+                    leaves = da.leaves()
+                    results = []
+                    for c, txt in leaves:
+                        with self.under(c):
+                            if self.g is False:
+                                continue
+                            a2 = list(args)
+                            a2[idx] = S(txt)
+                            results.append((c, self.call_item(item, a2, selfty)))
+                    res = None
+                    for c, r in reversed(results):
+                        res = r if res is None else (ite(c, r, res) if r is not None else res)
+                    return res
         d = self.depth.get(fname, 0)
         if d >= 1 and not (self.g is True):
             # recursive call under a symbolic guard: ask the solver before unrolling
@@ -706,6 +726,10 @@ class Interp:
             return UNIT
         if rty[0] == "Self" and selfty:
             rty = (selfty, [])
+        if rty[0] == "Option":
+            return none()
+        if rty[0] == "Result":
+            return En("Result", 1, {})
         try:
             return self.bi.default_of(rty)
         except Unsupported:
@@ -1110,6 +1134,8 @@ class Interp:
             v = self.ev(e["expr"], sc, cx, hint)
             return self.deref(v)
         v = self.deref(self.ev(e["expr"], sc, cx, hint))
+        if v is None:
+            return None
         if op == "UnOp::Not":
             if isinstance(v, I):
                 raise Unsupported("bitwise not")
@@ -1386,6 +1412,8 @@ class Interp:
         if k == "Expr::Paren":
             return self.cond(c["expr"], sc, cx)
         v = self.deref(self.ev(c, sc, cx))
+        if v is None:
+            return False        # value of dead code (unsatisfiable guard)
         if not (isinstance(v, bool) or is_sym(v)):
             raise Unsupported("non-bool condition %r" % (v,))
         return simp_bool(v) if is_sym(v) and False else v
@@ -1452,6 +1480,9 @@ class Interp:
 
     def ev_Try(self, e, sc, cx, hint):
         v = self.deref(self.ev(e["expr"], sc, cx))
+        if v is None:
+            self.g = False      # the operand was a call that is never executed (unsatisfiable guard)
+            return None
         if not isinstance(v, En) or v.name not in ("Option", "Result"):
             raise Unsupported("? on %r" % (v,))
         if v.name == "Option":
@@ -1466,7 +1497,7 @@ class Interp:
         with self.under(bad):
             if self.g is not False:
                 ev_ = v.pl.get(1)
-                self.do_return(cx, err(ev_[0] if ev_ else UNIT))
+                self.do_return(cx, err(ev_[0]) if ev_ else En("Result", 1, {}))
         self.g = band(self.g, bnot(bad))
         pl = v.pl.get(0)
         return pl[0] if pl else None
